@@ -281,7 +281,7 @@ func c40RunSeq(args [][]byte) *c40Seq {
 func init() {
 	Register(&Prop{
 		ID: "C40",
-		Rule: "seq: random op sequences (1..40 ops, plus bursts of >300 failures) over 0..4 fake BalancingClients with scripted outcomes and pending counts: " +
+		Rule: "seq: random op sequences (1..40 ops, plus bursts of >300 failures, plus states where any subset of the clients - first or not, one or all - sits at maxPenalty while the others report 5..1000 pending) over 0..4 fake BalancingClients with scripted outcomes and pending counts: " +
 			"DoDeadline (public API, healthy/unhealthy via error or HealthCheck), get, calls on a fixed client, timer firings (decPenalty), AddClient, RemoveClients, pending changes; " +
 			"exhaustive (thorough): all sequences of <=5 ops over a 10-op alphabet on 2 clients; conc: G goroutines x K failing calls released together on one client (settled state); " +
 			"race: a call parked inside get()'s scan (gate in a scripted client's PendingRequests) while RemoveClients (+AddClient) run on another goroutine; the client served must be the first least-loaded member of the list before or after the change; " +
@@ -556,6 +556,45 @@ func init() {
 				}
 				tail := []string{"S", "D0", "F00", "F00", "S", "T0", "F00", "F00", "S", "P1,400", "D0", "D1", "G", "T0", "T0", "S"}
 				for j := 0; j < 8+r.Intn(10); j++ {
+					args = append(args, B(tail[r.Intn(len(tail))]))
+				}
+				emit("seq", args...)
+			}
+			// routing with clients AT the penalty cap: any subset of the clients (first or not, one or all) is driven to
+			// maxPenalty, the others get pending counts below / around / far above 300, then calls are routed
+			ns := 16
+			if tier == "thorough" {
+				ns = 160
+			}
+			for i := 0; i < ns; i++ {
+				n := 2 + r.Intn(2)
+				cfg := []string{}
+				for id := 0; id < n; id++ {
+					cfg = append(cfg, fmt.Sprintf("%d:0", id))
+				}
+				args := [][]byte{B("e"), B(strings.Join(cfg, ",")), B("G")}
+				mask := 1 + r.Intn(1<<n-1) // non-empty subset to saturate
+				if i%4 == 0 {
+					mask = 1<<n - 1 // all saturated
+				}
+				if i%4 == 1 {
+					mask &^= 1 // a non-first client only
+					if mask == 0 {
+						mask = 2
+					}
+				}
+				for id := 0; id < n; id++ {
+					if mask>>id&1 == 1 {
+						for j := 0; j < 300+r.Intn(3); j++ {
+							args = append(args, B(fmt.Sprintf("F0%d", id)))
+						}
+					} else {
+						args = append(args, B(fmt.Sprintf("P%d,%d", id, []int{299, 300, 301, 1000, 5}[r.Intn(5)])))
+					}
+				}
+				tail := []string{"S", "G", "D1", "D1", "D0", "G", "P0,1000", "P1,0", "P0,0", "T1", "G", "D1"}
+				args = append(args, B("S"), B("G"), B("D1"), B("D1"))
+				for j := 0; j < 6+r.Intn(8); j++ {
 					args = append(args, B(tail[r.Intn(len(tail))]))
 				}
 				emit("seq", args...)
